@@ -6,6 +6,7 @@ from fractions import Fraction
 
 from ..core import frac
 from . import _call as K
+from . import _c01whole as W
 
 LEVEL = "proof"
 RULE = ("tables of 1..60 rows per call; rows generated from a known tumour copy number n in 0..12 "
@@ -36,9 +37,16 @@ ASSUMPTIONS = ["ratio space: the model receives the exact value of the double 2*
                "for this door (do_call never takes it); cn = nearest integer to r*2^log2 with r from the prose table "
                "(genome-aware) is checked in exact rational arithmetic by the harness itself"]
 TRUSTED_EXTRA = ["numpy round (half-even), np.log2, float pow"]
-CLAUSES = {"cn_nonneg", "cn_is_n", "ratio_of_pure_sample", "cn_nearest_integer", "reference_expect_table"}
+CLAUSES = {"cn_nonneg", "cn_is_n", "ratio_of_pure_sample", "cn_nearest_integer", "reference_expect_table"} | W.WHOLE_CLAUSES | W.WRAP_CLAUSES
 
-run_impl = K.run_impl
+def run_impl(case):
+    if case.get("op") == "do_call_whole":
+        return W.run_whole(case)
+    if case.get("op") == "call_wrappers":
+        return W.run_wrappers(case)
+    return K.run_impl(case)
+
+
 shrink = K.shrink
 _judge = K.judge_with(CLAUSES)
 
@@ -78,6 +86,10 @@ def _cmd_to_line(case, impl):
 
 
 def to_line(case, impl):
+    if case.get("op") == "do_call_whole":
+        return W.to_line(case, impl)
+    if case.get("op") == "call_wrappers":
+        return W.wrappers_to_line(case, impl)
     if case.get("op") == "cmd_call":
         return _cmd_to_line(case, impl)
     line = K.to_line(case, impl)
@@ -107,6 +119,10 @@ def _round_slack(q):
 
 def judge(case, impl, resp):
     i = case["in"]
+    if case.get("op") == "call_wrappers":
+        return W.wrappers_judge(case, impl, resp)
+    if case.get("op") == "do_call_whole":
+        return W.judge(case, impl, resp, K.judge_with(CLAUSES | W.WHOLE_CLAUSES))
     if isinstance(impl, dict) and "__error__" in impl:
         return _judge(case, impl, resp)
     if case.get("op") == "cmd_call":
@@ -414,6 +430,13 @@ def gen_cases(rng, tier):
                     "classes": classes, "purity": purity, "method": "clonal",
                     "par": rng.choice(["grch37", "grch38"]) if classes[0].startswith("par") else rng.choice([None, "grch38"])}),
                     share=0.5))
+    # do_call as a WHOLE (op `do_call_whole`): method x purity path x BAF source x filters, incl. unknown methods
+    for k in range({"quick": 72, "thorough": 432, "search": 36}[tier]):
+        cases.append(W.whole_case(rng, k))
+    # the public wrappers absolute_reference / absolute_expect / log2_ratios called directly (op `call_wrappers`)
+    for _ in range({"quick": 36, "thorough": 240, "search": 24}[tier]):
+        cases.append(W.wrappers_case(rng, _decorate(rng, _table(rng, rng.choice([1, 3, 16, 30]), force={
+            "par": rng.choice([None, "grch37", "grch38"]), "classes": ["auto", "x", "y", "parx", "pary"]}), share=0.5)))
     # the glue of `_cmd_call` (op `cmd_call`): purity validation, --center-at / --center precedence, sex handoff
     for k in range({"quick": 24, "thorough": 180, "search": 24}[tier]):
         cases.append(_cmd_case(rng, k))
